@@ -57,7 +57,7 @@ class MultiBinary(AbstractSpace[Bool[Array, " n"], None]):
         if x.shape != self.shape:
             return jnp.array(False)
 
-        return jnp.all((x == 0) | (x == 1), axis=0)
+        return jnp.all((x == 0) | (x == 1))
 
     def __eq__(self, other: object) -> bool:
         if not isinstance(other, MultiBinary):
